@@ -9,7 +9,7 @@ import json
 import os
 import subprocess
 
-from .. import core
+from .. import core, prng
 from ..engine import Verdict
 
 ID = "C18"
@@ -189,6 +189,10 @@ def generate(rng, tier):
     sel = []
     if sel_kind == "p":
         sel = rng.sample([p["name"] for p in pk], rng.range(1, min(2, len(pk))))
+        dr = prng.Rng(prng.mix(rng.seed, "c18-package-named-twice"))  # a side stream
+        if dr.chance(25):
+            # the same package named twice (cargo accepts that): still a selection of that package
+            sel = dr.shuffle(sel + [dr.choice(sel)])
     elif sel_kind == "unknown":
         sel = ["nosuchpkg"] + ([pk[0]["name"]] if rng.chance(50) else [])
     files["ws/docs/readme.txt"] = "a directory of the workspace that belongs to no package\n"
